@@ -1177,7 +1177,9 @@ def run(ctx):
                 'histories = the same under harness/faultshim.c with an error injected into one open/write/close call of a save (ghost disk = content when '
                 'last read or last SUCCESSFULLY written), each preceded by a dry run that lists the calls; every history contains :e with an empty or self-referring argument '
                 '(e, e +1, e %%, e #, e! %%); histories of an editor started WITHOUT a file name (the unnamed buffer gets its name from its first write with a path; partial '
-                'own-path write; undo down to the first state; q / e / b); lbuf lists also from the unnamed start (lbuf_make; lbuf_saved(lb, 0)).  non-trivial = a history in which some :q/:e/:b was '
+                'own-path write; undo down to the first state; q / e / b); histories in which the unnamed start-up buffer is LEFT BEHIND in the table (empty / holding text / text undone) among 1-3 named files, '
+                'followed by every quit form incl. xa, and after a refusal undo in the buffers the quit has written, rescue of the unnamed buffer by `w name`, quit again; every q / wq / x / xa is also put to the '
+                'extracted ec_quit_n (named / unnamed slots, reported modified or not); lbuf lists also from the unnamed start (lbuf_make; lbuf_saved(lb, 0)).  non-trivial = a history in which some :q/:e/:b was '
                 'refused or a save failed; distinct = distinct history') % (L, len(ALPHA))
 
     def lbuf_fails(init):
